@@ -237,11 +237,15 @@ func (x *Exec) step(st *State, fi int, instr ssa.Instruction, from *ssa.BasicBlo
 		}
 		ks := x.sortOf(mt.Key())
 		x.iterN++
-		it := &IterVal{Map: m, Visited: Term{fmt.Sprintf("((as const (Array %s Bool)) false)", ks), ArraySort(ks, "Bool")}, id: x.iterN, ord: x.rangeOrdinal(fr.fn, in)}
+		dom0, _, _, _, _ := x.mapArrs(st, st.heap, st.epoch, mt)
+		d0 := x.decls.Fresh("range.dom0", ArraySort(ks, "Bool"))
+		st.assume(Eq(d0, Select(dom0, m.T)))
+		it := &IterVal{Map: m, Visited: Term{fmt.Sprintf("((as const (Array %s Bool)) false)", ks), ArraySort(ks, "Bool")}, Count: IntLit(0), Dom0: d0, id: x.iterN, ord: x.rangeOrdinal(fr.fn, in)}
 		if st.ghostLoc == nil {
 			st.ghostLoc = map[string]Value{}
 		}
 		st.ghostLoc[fmt.Sprintf("visited%d", it.ord)] = Value{T: it.Visited}
+		st.ghostLoc[fmt.Sprintf("count%d", it.ord)] = Value{T: it.Count, Typ: types.Typ[types.Int]}
 		c := x.newCell(fmt.Sprintf("$iter%d", x.iterN), nil)
 		st.cells[c] = Value{It: it}
 		fr.iterCells = cloneIterCells(fr.iterCells)
@@ -616,6 +620,15 @@ func (x *Exec) doNext(st *State, fi int, in *ssa.Next) {
 	st.assume(Implies(okc, And(Not(Eq(m, NullT)), Select(d, k), Not(Select(it.Visited, k)))))
 	st.assume(Implies(Not(okc), Or(Eq(m, NullT), Term{fmt.Sprintf("(forall ((?k %s)) (! (=> (select %s ?k) (select %s ?k)) :pattern ((select %s ?k)) :pattern ((select %s ?k))))", ks, d.S, it.Visited.S, d.S, it.Visited.S), "Bool"})))
 	st.assume(Le(IntLit(0), Select(card, m)))
+	// cardinality: while the key set is the one the iteration started with, the
+	// number of visited keys is below the map's length as long as an unvisited
+	// key exists, and equals it when the iteration ends
+	if it.Count.S != "" && it.Dom0.S != "" {
+		same := Eq(d, it.Dom0)
+		st.assume(Le(IntLit(0), it.Count))
+		st.assume(Implies(And(same, okc), Lt(it.Count, Select(card, m))))
+		st.assume(Implies(And(same, Not(okc), Not(Eq(m, NullT))), Eq(it.Count, Select(card, m))))
+	}
 	v := Select(Select(val, m), k)
 	st.assume(Implies(okc, x.wellTyped(st, v, mt.Elem())))
 	nv := Store(it.Visited, k, TrueT)
@@ -627,7 +640,11 @@ func (x *Exec) doNext(st *State, fi int, in *ssa.Next) {
 		nv = Ite(okc, nv, it.Visited)
 	}
 	x.recCell(cell)
-	st.cells[cell] = Value{It: &IterVal{Map: it.Map, Visited: nv, id: it.id, ord: it.ord}}
+	nc := it.Count
+	if nc.S != "" {
+		nc = Ite(okc, Add(it.Count, IntLit(1)), it.Count)
+	}
+	st.cells[cell] = Value{It: &IterVal{Map: it.Map, Visited: nv, Count: nc, Dom0: it.Dom0, id: it.id, ord: it.ord}}
 	// expose iteration ghost state to specs: visited<N>, and the current key
 	if st.ghostLoc == nil {
 		st.ghostLoc = map[string]Value{}
@@ -635,6 +652,9 @@ func (x *Exec) doNext(st *State, fi int, in *ssa.Next) {
 	ord := x.rangeOrdinal(fr.fn, rg)
 	st.ghostLoc[fmt.Sprintf("visited%d", ord)] = Value{T: nv}
 	st.ghostLoc[fmt.Sprintf("visitedBefore%d", ord)] = Value{T: it.Visited}
+	if nc.S != "" {
+		st.ghostLoc[fmt.Sprintf("count%d", ord)] = Value{T: nc, Typ: types.Typ[types.Int]}
+	}
 	st.ghostLoc[fmt.Sprintf("key%d", ord)] = Value{T: k, Typ: mt.Key()}
 	x.setReg(st, fi, in, Value{Tup: []Value{{T: okc, Typ: types.Typ[types.Bool]}, {T: k, Typ: mt.Key()}, {T: v, Typ: mt.Elem()}}, Typ: in.Type()})
 }
